@@ -248,7 +248,8 @@ Inductive op :=
 | MapCb (r : nat) (cb : mapcb) | FilterCb (r : nat) (cb : filtercb) | EachAppend (r r2 : nat)
 | MGetD (r : nat) (k : value) (d : option value) | MPop (r : nat) (k : value) (d : option value)
 | MSetDefault (r : nat) (k v : value) | MUpdate (r r2 : nat) | MValues (r : nat) | MItems (r : nat)
-| SAdd (r : nat) (v : value) | SRemove (r : nat) (v : value) | SUnion (r r2 : nat) | SInter (r r2 : nat).
+| SAdd (r : nat) (v : value) | SRemove (r : nat) (v : value) | SUnion (r r2 : nat) | SInter (r r2 : nat)
+| Enumerate (r : nat).      (* for k, v := range r { acc.append([k, v]) } *)
 
 Fixpoint set_nth_obj {A : Type} (l : list A) (i : nat) (x : A) : list A :=
   match l, i with
@@ -266,6 +267,13 @@ Fixpoint find_index (v : value) (l : list value) (i : nat) : option nat :=
 
 Fixpoint index_values (i : nat) (n : nat) : list value :=
   match n with O => [] | S n' => VInt (Z.of_nat i) :: index_values (S i) n' end.
+
+(* what a range loop over a list yields: (index, value), a fresh index per step (ListIter.Entry) *)
+Fixpoint enumerate_from (i : nat) (l : list value) : list value :=
+  match l with
+  | [] => []
+  | x :: l' => VList [VInt (Z.of_nat i); x] :: enumerate_from (S i) l'
+  end.
 
 (* sort.SliceStable run to the end: final arrangement, whether a comparison failed, whether it panicked *)
 Definition sort_full (l : list value) : list value * bool * bool :=
@@ -658,6 +666,15 @@ Section Step.
         | Some _, Some _ => (s, RErr EAttr)
         | _, _ => (s, RUnsup)
         end
+    | Enumerate r =>
+        match nth_error s r with
+        | Some (OList t) => new_list s (enumerate_from O (to_list LO t))
+        | Some (OMap m) =>
+            (* MapIter: the keys sorted when the loop starts *)
+            new_list s (map (fun k => VList [VStr k; match assoc k m with Some v => v | None => VNil end]) (sorted_keys m))
+        | Some (OSet _) => (s, RUnsup)
+        | None => (s, RUnsup)
+        end
     end.
 
   Fixpoint run (s : store) (ops : list op) : store * list outcome :=
@@ -693,7 +710,7 @@ Definition readonly (o : op) : bool :=
   match o with
   | NewList _ | NewMap _ | NewSet _ | Get _ _ | Slice _ _ _ | Contains _ _ | Len _ | Copy _ | Count _ _ | Index _ _
   | Reversed _ | Sorted _ | Keys _ | Concat _ _ | MapCb _ _ | FilterCb _ _ | MGetD _ _ _ | MValues _ | MItems _
-  | SUnion _ _ | SInter _ _ => true
+  | SUnion _ _ | SInter _ _ | Enumerate _ => true
   | _ => false
   end.
 
